@@ -512,6 +512,7 @@ def case_gctm(ctx, N, L):
     paths, ex = core.run_paths(go, pre, max_paths=400)
     ctx.explored(ex, len(paths))
     rp = lambda m: replay_gctm(*conc_profile(m, h, p, None)[:2], L, abs(float(m(hs))) or 1.0, abs(float(m(cs))) or 1.0, [abs(float(m(e))) for e in X.flat])
+    ctx.fallback = rp
     done = 0
     for pi, pth in enumerate(paths):
         hyp = pre + pth.pc
